@@ -447,6 +447,10 @@ def classify_callee(path):
         return ("constarg", name)
     if name in ALLOC_METHODS and any(x in path for x in ("alloc::vec", "alloc::collections", "alloc::string", "std::collections", "indexmap::", "alloc::raw_vec", "alloc::slice", "alloc::str", "java_string::")):
         return ("alloc", ALLOC_METHODS[name])
+    if name in ("sum", "product") and ("Iterator" in path or "iter::" in path) and not re.search(r"::(sum|product)::<f(32|64)>", path):
+        # core's integer Sum/Product impls carry #[rustc_inherit_overflow_checks]: the accumulation panics on overflow in a checked build
+        # (and wraps silently otherwise); unlike a checked_add chain nothing bounds it (seed C16-7)
+        return ("panic", "integer %s over an iterator overflows unchecked" % name)
     owners = PANIC_METHODS.get(name)
     if owners:
         if any(o in path for o in owners):
